@@ -308,5 +308,100 @@ impl Get for Impl {
 }
 }
 
+// ---- extractors  .key  #index  ^ (src/extractor.rs): the path applied to the input, or to the n-th enclosing input ----
+//@@ item src/extractor.rs :: enum SingleExtract
+//@@ rewrite pub_struct
+//@@ enditem
+//@@ item src/extractor.rs :: enum ExtractFromInput
+//@@ rewrite pub_struct
+//@@ enditem
+//@@ item src/extractor.rs :: struct Extract
+//@@ rewrite pub_struct pub_fields
+//@@ enditem
+pub open spec fn step_spec(e: SingleExtract, v: JsonValue) -> Option<JsonValue> {
+    match (v, e) {
+        (JsonValue::Array(l), SingleExtract::ByIndex(i)) => if i < l@.len() { Some(l@[i as int]) } else { None },
+        (JsonValue::Object(m), SingleExtract::ByKey(k)) => if m.has(k) { Some(m.entries()[im_idx(m.entries(), k)].1) } else { None },
+        _ => None,
+    }
+}
+pub open spec fn path_from(es: Seq<SingleExtract>, i: int, v: Option<JsonValue>) -> Option<JsonValue>
+    decreases es.len() - i
+{
+    if i < 0 || i >= es.len() { v } else { match v { None => None, Some(x) => path_from(es, i + 1, step_spec(es[i], x)) } }
+}
+pub open spec fn extract_spec(e: ExtractFromInput, input: JsonValue) -> Option<JsonValue> {
+    match e { ExtractFromInput::Root => Some(input), ExtractFromInput::Element(es) => path_from(es@, 0, Some(input)) }
+}
+// ^^..: the n-th enclosing input; beyond the outermost one it is the current input (src/processor.rs: parent_input)
+pub open spec fn nth_input(c: &Context, n: usize) -> JsonValue {
+    if n == 0 || n > c.parents().len() { c.inp() } else { c.parents()[n - 1] }
+}
+impl SingleExtract {
+//@@ fn extract.step = src/extractor.rs :: impl SingleExtract :: fn extract
+//@@ safety C04 C05
+//@@ ret r
+//@@ header
+        ensures r == step_spec(*self, *value), // @obl FUN.extract.step : C04
+//@@ body-start
+        broadcast use cl::group_clone_is_copy;
+//@@ endfn
+}
+impl ExtractFromInput {
+//@@ fn extract.path = src/extractor.rs :: impl ExtractFromInput :: fn extract
+//@@ safety C04 C05
+//@@ ret r
+//@@ header
+        ensures r == extract_spec(*self, *input), // @obl FUN.extract.path : C04 C12
+//@@ body-start
+        broadcast use cl::group_clone_is_copy;
+//@@ loop 1 iter it
+                    invariant_except_break
+                        path_from(es@, it.index@, val) == path_from(es@, 0, Some(*input)),
+                    invariant
+                        it.seq().len() == es@.len(), 0 <= it.index@ <= es@.len(),
+                        forall|j: int| 0 <= j < it.seq().len() ==> *(#[trigger] it.seq()[j]) == es@[j],
+                    ensures val == path_from(es@, 0, Some(*input)),
+//@@ endfn
+}
+impl Get for Extract {
+    open spec fn get_spec(&self, value: &Context) -> Option<JsonValue> { extract_spec(self.extract_from_input, nth_input(value, self.number_of_parents)) }
+//@@ fn extract.get = src/extractor.rs :: impl Get for Extract :: fn get
+//@@ safety C04 C12 C05
+//@@ post doc ".a#1 / ^.a: the key / index path applied to the current input, or for n carets to the n-th enclosing input (the current input when there are fewer); nothing when a step does not apply"
+//@@ endfn
+}
+
+// ---- :name / @name as written in an expression (src/variables_extractor.rs) ----
+pub mod varx {
+use super::*;
+//@@ item src/variables_extractor.rs :: enum Type
+//@@ rewrite pub_struct
+//@@ enditem
+//@@ item src/variables_extractor.rs :: struct VariableExtructor
+//@@ rewrite pub_struct pub_fields
+//@@ enditem
+impl Get for VariableExtructor {
+    open spec fn get_spec(&self, value: &Context) -> Option<JsonValue> {
+        match self.variable_type {
+            Type::Variable => if value.vars().contains_key(self.name) { Some(value.vars()[self.name]) } else { None },
+            Type::Macro => if value.defs().contains_key(self.name) { value.defs()[self.name].get_spec(value) } else { None },
+        }
+    }
+//@@ fn varx.get = src/variables_extractor.rs :: impl Get for VariableExtructor :: fn get
+//@@ safety C12 C04 C13
+//@@ post lookup ":n is the value bound to n, @n the macro bound to n evaluated on the CURRENT context (same input, parents and bindings); nothing when unbound"
+//@@ body-start
+        broadcast use cl::group_clone_is_copy;
+//@@ insert-after ".and_then(|f"
+ : &Rc<dyn Get>
+//@@ insert-after ".and_then(|f|"
+ -> (o: Option<JsonValue>) ensures o == f.get_spec(value), {
+//@@ insert-after "f.get(value)"
+ }
+//@@ endfn
+}
+}
+
 } // verus!
 fn main() {}
